@@ -1109,16 +1109,21 @@ static int ec_tprev(char *loc, char *cmd, char *arg, char *txt)
 
 static int ec_at(char *loc, char *cmd, char *arg, char *txt)
 {
+	static int depth;	/* registers executing registers */
 	int beg, end;
 	int lnmode;
+	int ret;
 	char *buf = reg_get(REG(arg), &lnmode);
 	if (!buf || ex_region(loc, &beg, &end))
 		return 1;
+	if (depth >= 16) {
+		ex_show("register recursion too deep");
+		return 1;
+	}
 	xrow = beg;
 	if (cmd[0] == 'r' && cmd[1] == 'a') {
 		struct sbuf *r = sbuf_make();
 		char *s = buf;
-		int ret;
 		while (*s) {
 			if ((unsigned char) *s == '' && s[1]) {
 				char *reg = reg_get((unsigned char) *++s, NULL);
@@ -1130,11 +1135,16 @@ static int ec_at(char *loc, char *cmd, char *arg, char *txt)
 				sbuf_chr(r, (unsigned char) *s++);
 			}
 		}
+		depth++;
 		ret = ex_command(sbuf_buf(r));
+		depth--;
 		sbuf_free(r);
 		return ret;
 	}
-	return ex_command(buf);
+	depth++;
+	ret = ex_command(buf);
+	depth--;
+	return ret;
 }
 
 static int ec_source(char *loc, char *cmd, char *arg, char *txt)
